@@ -27,6 +27,8 @@ ALL = ['C%02d' % i for i in range(1, 20)]
 def run_seed(sid, a):
     d = os.path.join(VERIF, 'seeded', sid)
     meta = json.load(open(os.path.join(d, 'meta.json')))
+    if meta.get('not_caught') and not a.all_checks:
+        return sid, {}
     checks = ALL if a.all_checks else (meta.get('caught_by') or
                                        [meta['property']])
     wt = tempfile.mkdtemp(prefix='seedreg-%s-' % sid)
@@ -80,7 +82,10 @@ def main():
             table[sid] = res
             meta = json.load(open(os.path.join(VERIF, 'seeded', sid,
                                                'meta.json')))
-            exp = meta.get('caught_by') or [meta['property']]
+            exp = [] if meta.get('not_caught') else (
+                meta.get('caught_by') or [meta['property']])
+            if meta.get('not_caught'):
+                res = dict(res, note='not claimed')
             line = ' '.join('%s=%s' % kv for kv in sorted(res.items())
                             if kv[1] != 'MISSED' or kv[0] in exp)
             print('%s: %s' % (sid, line), flush=True)
